@@ -387,9 +387,18 @@ func TestPropDerived(t *testing.T) {
 		case "resolve":
 			c.Base = addrgen.Valid(t, rapid.SampledFrom([]string{"local", "registry", "git", "archive", "shorthand"}).Draw(t, "bk"))
 			c.Arg = relArg(t)
+			if rapid.IntRange(0, 15).Draw(t, "edgespace?") == 0 {
+				// stepping up to a directory whose name ends in a space: the result ends in that space
+				c.Base = rapid.SampledFrom([]string{"./mods/trail /b", "git::https://example.com/repo.git//trail /b", "hashicorp/consul/aws//modules/trail /b", "https://example.com/pkg.tgz//x/tab\t/b"}).Draw(t, "edgebase")
+				c.Arg = "../"
+			}
 		case "resolvefinal":
 			c.Base = addrgen.Valid(t, rapid.SampledFrom([]string{"local", "registryfinal", "git", "archive"}).Draw(t, "bk"))
 			c.Arg = relArg(t)
+			if rapid.IntRange(0, 15).Draw(t, "edgespace?") == 0 {
+				c.Base = rapid.SampledFrom([]string{"./mods/trail /b", "git::https://example.com/repo.git//trail /b", "hashicorp/consul/aws@1.0.0//modules/trail /b"}).Draw(t, "edgebase")
+				c.Arg = "../"
+			}
 		case "versioned":
 			c.Base = addrgen.Valid(t, "registry")
 			c.Arg = rapid.SampledFrom([]string{"1.0.0", "0.0.1", "1.2.3-beta", "1.2.3+meta", "2.0.0-rc.1+b.7", "0.0.0"}).Draw(t, "ver")
